@@ -1579,6 +1579,17 @@ def gen_string_value(rng: random.Random, quotable: bool) -> bytes:
                  for _ in range(rng.randint(1, 10)))
 
 
+def _unframe_astring(w: bytes) -> bytes:
+    """The value inside the astring framing pymap chose: atom, quoted or
+    (for 64 octets and more) literal."""
+    m = re.match(rb'\{(\d{1,9})\}\r\n', w)
+    if m and len(w) - m.end() == int(m.group(1)):
+        return w[m.end():]
+    if w.startswith(b'"') and w.endswith(b'"') and len(w) >= 2:
+        return w[1:-1].replace(b'\\"', b'"').replace(b'\\\\', b'\\')
+    return w
+
+
 def run_inproc(spec: dict[str, Any], counters: dict[str, int],
                viol: list[dict[str, Any]]) -> None:
     from pymap.parsing.exceptions import NotParseable
@@ -1874,9 +1885,7 @@ def run_inproc(spec: dict[str, Any], counters: dict[str, int],
             cnt('rt_Mailbox')
             try:
                 w = bytes(Mailbox(name))
-                back = mutf7_decode(w if not w.startswith(b'"') else
-                                    w[1:-1].replace(b'\\"', b'"')
-                                    .replace(b'\\\\', b'\\'))
+                back = mutf7_decode(_unframe_astring(w))
             except MUtf7Error as exc:
                 # do NOT hand it to pymap's decoder: it may never return
                 report('name-undecodable',
